@@ -19,7 +19,7 @@ class Cases:
         self.n += 1
         name = 'f%d' % self.n
         c, sx = F.function(name, rett, params, body, self.sc)
-        self.out.append(dict(name=name, family=family, c=c, sx=sx, note=note))
+        self.out.append(dict(name=name, family=family, c=c, sx=sx, note=note, params=params, rett=rett))
 
     def struct(self, body, size, align, members):
         self.ndecl += 1
